@@ -394,6 +394,109 @@ def path_correspondence(ctx):
     ctx.traces += len(model_in)
 
 
+def links_now(resources):
+    """(resource k, position i, feature) -> [(resource, position)] of the loaded objects, proxies standing for their targets"""
+    where = {}
+    pre = [preorder(r.contents) for r in resources]
+    for k, objs in enumerate(pre):
+        for i, o in enumerate(objs):
+            where[id(o)] = (k, i)
+    out = {}
+    for k, objs in enumerate(pre):
+        for i, o in enumerate(objs):
+            for f in _refs(o):
+                if f.containment or f.derived:
+                    continue
+                v = o.eGet(f)
+                tg = list(v) if f.many else ([v] if v is not None else [])
+                out[(k, i, f.name)] = [where.get(id(unproxy(t))) for t in tg]
+    return out
+
+
+def resave_case(ctx, h, tmp):
+    """load, follow, *edit*, save, reload: the files are all loaded in one resource set and every reference followed;
+    then objects are inserted in front of referenced ones (their positions change); every file is saved again and one is
+    reloaded in a fresh resource set — each reference must reach the object it reached before the save"""
+    from pyecore.resources import ResourceSet, URI
+    from pyecore.resources.json import JsonResource
+    rng = common.sub_rng(ctx.seed, 'C14', 'resave', h)
+    fmt = 'xmi' if h % 3 != 2 else 'json'
+    case_dir = os.path.join(tmp, f'resave{h}')
+    os.makedirs(case_dir)
+
+    def fresh(built):
+        r = ResourceSet()
+        r.resource_factory['json'] = lambda uri: JsonResource(uri)
+        r.metamodel_registry[built[0].nsURI] = built[0]
+        return r
+    try:
+        sp, built, ms, rset, paths, ncross = build_world(rng, h, case_dir, fmt, rng.choice([2, 2, 3]))
+        for p in paths:
+            rset.resources[URI(p).normalize()].save()
+        rset2 = fresh(built)
+        res2 = [rset2.get_resource(URI(p)) for p in paths]
+        for r in res2:
+            for o in preorder(r.contents):
+                for f in _refs(o):
+                    v = o.eGet(f)
+                    for t in (list(v) if f.many else ([v] if v is not None else [])):
+                        _ = t.eClass
+    except Exception as e:
+        ctx.count('resave/setup-raised/' + type(e).__name__)
+        return
+    if not ncross:
+        return
+    # edit: a new sibling in front of the children of some containers
+    edits = 0
+    for r in res2:
+        for o in preorder(r.contents):
+            for f in _refs(o):
+                if f.containment and f.many and len(o.eGet(f)) and rng.random() < .6:
+                    first = o.eGet(f)[0]
+                    try:
+                        o.eGet(f).insert(0, first.eClass())
+                        edits += 1
+                    except Exception:
+                        pass
+    if not edits:
+        ctx.count('resave/no-edit-possible')
+        return
+    want = links_now(res2)
+    try:
+        for r in res2:
+            r.save()
+        rset3 = fresh(built)
+        start = rng.randrange(len(paths))
+        first = rset3.get_resource(URI(paths[start]))
+        for o in preorder(first.contents):
+            for f in _refs(o):
+                v = o.eGet(f)
+                for t in (list(v) if f.many else ([v] if v is not None else [])):
+                    _ = t.eClass
+        res3 = [rset3.get_resource(URI(p)) for p in paths]
+        got = links_now(res3)
+    except Exception as e:
+        ctx.violate({'clause': 'resave-raised', 'format': fmt, 'trigger': 'none'},
+                    f'resave-raised: saving the edited files and reloading one raised {type(e).__name__}: {e}',
+                    {'case': h, 'resave': True, 'format': fmt})
+        return
+    ctx.evaluations += 1
+    ctx.count('resave/' + fmt)
+    ctx.nontriv(('resave', h))
+    for key in sorted(want):
+        if key[0] != start:
+            continue
+        w_, g_ = want[key], got.get(key)
+        if g_ != w_:
+            mixed = len({k for (k, _) in [x for x in w_ if x]}) > 1
+            order_only = g_ is not None and sorted(map(str, g_)) == sorted(map(str, w_))
+            ctx.violate({'clause': 'wrong-target', 'format': fmt,
+                         'trigger': 'xmi-mixed-local-and-cross-order' if (fmt == 'xmi' and order_only and mixed) else 'none'},
+                        f'wrong-target: after load, follow, edit (objects inserted in front of referenced ones), save and reload, object {key[1]}.{key[2]} of file {key[0]} '
+                        f'reaches {g_}, before the save it reached {w_}', {'case': h, 'resave': True, 'format': fmt})
+            return
+
+
 def run(ctx):
     common.use_repo()
     n = 200 if ctx.quick() else 4000
@@ -406,6 +509,8 @@ def run(ctx):
     try:
         for h in range(n):
             run_case(ctx, h, tmp)
+        for h in range(n // 4):
+            resave_case(ctx, h, tmp)
         for k in range(6):
             alias_case(ctx, tmp, 'xmi' if k % 2 == 0 else 'json', k)
         path_correspondence(ctx)
@@ -422,7 +527,7 @@ def replay(ctx, data):
     tmp = tempfile.mkdtemp(prefix='verif_c14_')
     c2 = common.Ctx('C14', data['tier'], data['seed'])
     try:
-        run_case(c2, data['replay']['case'], tmp)
+        (resave_case if data['replay'].get('resave') else run_case)(c2, data['replay']['case'], tmp)
     finally:
         shutil.rmtree(tmp, ignore_errors=True)
     for v in c2.violations:
